@@ -619,7 +619,8 @@ pub fn check(case: &Case, o: &Observed) -> Vec<Finding> {
     f
 }
 
-const DURS: &[u64] = &[0, MS, 5 * MS, 10 * MS, 20 * MS, 50 * MS, 100 * MS, 1000 * MS, 5000 * MS, 10_000 * MS];
+// (0.3 ms and 0.7 ms: deadlines of different tasks then differ by less than a millisecond)
+const DURS: &[u64] = &[0, MS, 5 * MS, 10 * MS, 20 * MS, 50 * MS, 100 * MS, 1000 * MS, 5000 * MS, 10_000 * MS, 300_000, 700_000];
 
 fn d(rng: &mut Rng) -> u64 {
     *rng.pick(DURS)
